@@ -12,7 +12,6 @@ import (
 	"fmt"
 	"math/big"
 	"math/rand"
-	"os"
 	"strings"
 	"sync"
 	"time"
@@ -412,8 +411,6 @@ func nodeValues(e *engine) {
 }
 
 func childMain(r *mon.Run, args []string) {
-	dir, _ := os.Getwd()
-	_ = dir
 	t0 := time.Now()
 	bootNode()
 	e := newEngine(r)
